@@ -200,6 +200,7 @@ func TestC09_CrashPoints(t *testing.T) {
 			args = []string{"--no-color", "-d", dbp, "--", q}
 			followArgs = []string{"--no-color", "-d", dbp, "--", "follow up query"}
 		}
+		fileMode := c09DrawModes(t, base)
 		oldNB := readOrNil(base.Notebook())
 		var oldEntries []database.Command
 		if oldNB != nil {
@@ -328,7 +329,7 @@ func TestC09_CrashPoints(t *testing.T) {
 				t.Fatalf("%s op %+q with fault %s: %s\n syscalls of the unfaulted run: %v", target, args, o.cp, o.msg, names)
 			}
 			late := o.cp.N > 0 && o.cp.Sys != "mkdirat" && o.cp.Sys != "mkdir" && (o.cp.Sys != "openat" || o.cp.Mode != "kill")
-			rec.Case(late, map[string]any{"target": target, "op": args, "point": o.cp.String(), "state_after": o.st}, "crash-point", "crash:"+o.cp.Mode, "crash-sys:"+o.cp.Sys, "after:"+o.st)
+			rec.Case(late, map[string]any{"target": target, "op": args, "point": o.cp.String(), "state_after": o.st, "file_mode": fileMode}, "crash-point", "mode:"+fileMode, "crash:"+o.cp.Mode, "crash-sys:"+o.cp.Sys, "after:"+o.st)
 		}
 	})
 }
